@@ -33,6 +33,9 @@ const (
 	KInvoke = 102 // about to invoke operation A (B = argument digest)
 	KReturn = 103 // operation A returned (B = result digest)
 	KPoint  = 104 // generic preemption point inside harness-supplied code (A = site)
+	// KAnnounce is a scheduler-internal step: a writer's Lock call on an RWMutex
+	// held by readers becomes pending (the thread stays parked).
+	KAnnounce = 105
 )
 
 // Event is one entry of the totally ordered run log.
@@ -113,6 +116,10 @@ type job struct {
 type lockState struct {
 	writer  int // tid+1 or 0
 	readers int
+	// writerPending: tid+1 of a writer that has called Lock on an RWMutex while
+	// readers hold it. As with sync.RWMutex, a blocked Lock call excludes new
+	// readers from acquiring the lock.
+	writerPending int
 }
 
 // Sim is one simulated run.
@@ -461,11 +468,38 @@ func (s *Sim) blocked(t *thread) bool {
 	switch t.pending.Kind {
 	case simsync.KLock:
 		l := s.lock(t.pending.Obj)
-		return l.writer != 0 || l.readers != 0
+		if l.writer != 0 {
+			return true
+		}
+		if l.writerPending != 0 && l.writerPending != t.id+1 {
+			return true // another writer is ahead
+		}
+		if l.readers != 0 {
+			// Not yet announced: the thread may take the (scheduler-internal)
+			// step of calling Lock; once pending it waits for the readers.
+			return l.writerPending == t.id+1
+		}
+		return false
 	case simsync.KRLock:
-		return s.lock(t.pending.Obj).writer != 0
+		l := s.lock(t.pending.Obj)
+		return l.writer != 0 || l.writerPending != 0
 	}
 	return false
+}
+
+// announce handles a writer whose Lock call finds readers: the call becomes
+// pending and the thread stays parked. It reports whether it did so.
+func (s *Sim) announce(t *thread) bool {
+	if t.pending.Kind != simsync.KLock {
+		return false
+	}
+	l := s.lock(t.pending.Obj)
+	if l.readers == 0 || l.writer != 0 || l.writerPending != 0 {
+		return false
+	}
+	l.writerPending = t.id + 1
+	s.events = append(s.events, Event{Step: s.step, Tid: t.id, Kind: KAnnounce, Obj: t.pending.Obj, Grant: s.step})
+	return true
 }
 
 // Run executes the bodies as simulated threads under the scheduler until all
@@ -556,6 +590,9 @@ func Run(ch chooser.Chooser, cfg Config, bodies []func(tid int)) *Result {
 		}
 		last = t
 		s.step++
+		if s.announce(t) {
+			continue
+		}
 		reply := s.grant(t)
 		s.resume(t, false, reply)
 		s.accept(t)
@@ -625,7 +662,11 @@ func (s *Sim) grant(t *thread) int64 {
 	ev.Grant = s.step
 	switch ev.Kind {
 	case simsync.KLock:
-		s.lock(ev.Obj).writer = t.id + 1
+		l := s.lock(ev.Obj)
+		l.writer = t.id + 1
+		if l.writerPending == t.id+1 {
+			l.writerPending = 0
+		}
 	case simsync.KRLock:
 		s.lock(ev.Obj).readers++
 	case simsync.KPoolGet:
